@@ -72,6 +72,14 @@ func Replay(path string) int {
 	if json.Unmarshal(f.Replay, &hb) == nil && hb.BFS != "" {
 		return replayBFS(hb.BFS, hb.Arg, hb.Hist, f.Key)
 	}
+	var cb struct {
+		Cases string `json:"cases"`
+		Arg   string `json:"arg"`
+		Index int    `json:"index"`
+	}
+	if json.Unmarshal(f.Replay, &cb) == nil && cb.Cases != "" {
+		return replayCase(cb.Cases, cb.Arg, cb.Index, f.Key)
+	}
 	if r := replayers[f.Property]; r != nil {
 		ok, trace := r(f.Replay)
 		for _, t := range trace {
